@@ -281,7 +281,12 @@ func (c *Ctx) randSession(hostileLevel int, crInAttr bool) sessS {
 		}
 		return str()
 	}
-	s := sessS{NameID: str(), Index: astr(), SubjectID: maybe(), UserName: maybe(), Email: maybe(), CN: maybe(), SN: maybe(), GN: maybe(), Aff: maybe(), EPPN: maybe()}
+	nameID := str()
+	if c.chance(0.12) {
+		nameID = "" // a session without a name identifier (a stored user without an e-mail address): the assertion says so, nothing else
+		c.count("session-nameid", "empty")
+	}
+	s := sessS{NameID: nameID, Index: astr(), SubjectID: maybe(), UserName: maybe(), Email: maybe(), CN: maybe(), SN: maybe(), GN: maybe(), Aff: maybe(), EPPN: maybe()}
 	if c.chance(0.3) {
 		s.NameIDFormat = c.pick("urn:oasis:names:tc:SAML:1.1:nameid-format:emailAddress", "urn:oasis:names:tc:SAML:2.0:nameid-format:persistent", astr())
 	}
@@ -879,6 +884,12 @@ func (c *Ctx) randAreq(sc *serveCase) areq {
 	if c.chance(0.1) {
 		a.ID = c.hostile(false)
 	}
+	if c.chance(0.3) {
+		// the optional parts of a request (its own Subject / NameID, NameIDPolicy, RequestedAuthnContext, ForceAuthn …) describe
+		// what the requester would like; the response describes the authenticated session only
+		a.Extras = true
+		c.count("request-optional-parts", "present")
+	}
 	if c.chance(0.5) {
 		a.Destination = idpSSOURL
 	}
@@ -1069,6 +1080,12 @@ func identityDiff(a *saml.Assertion, s sessS) string {
 	}
 	put("urn:oid:0.9.2342.19200300.100.1.1", s.UserName)
 	put("urn:oid:0.9.2342.19200300.100.1.3", s.Email)
+	// eduPersonPrincipalName is the session's principal name; only a session without one gets its e-mail address there (documented legacy)
+	if s.EPPN != "" {
+		put("urn:oid:1.3.6.1.4.1.5923.1.1.1.6", s.EPPN)
+	} else {
+		put("urn:oid:1.3.6.1.4.1.5923.1.1.1.6", s.Email)
+	}
 	put("urn:oid:2.5.4.4", s.SN)
 	put("urn:oid:2.5.4.42", s.GN)
 	put("urn:oid:2.5.4.3", s.CN)
@@ -1698,6 +1715,7 @@ func (c *Ctx) genC08() {
 		c.emit("idpserve", sc.toks(), impl, orc)
 	}
 
+	c.encKeyRollover()
 	// 2. freshness: runs of encrypted responses under a counting reader; key and IV located in the stream
 	runs := 12
 	if !c.quick() {
@@ -1876,6 +1894,84 @@ func (c *Ctx) retrySameRequest(sc *serveCase) string {
 		why = "retrying on the same request panicked: " + res
 	}
 	return why
+}
+
+type rollingRegistry struct{ md *saml.EntityDescriptor }
+
+func (r *rollingRegistry) GetServiceProvider(_ *http.Request, id string) (*saml.EntityDescriptor, error) {
+	if r.md != nil && r.md.EntityID == id {
+		return r.md, nil
+	}
+	return nil, os.ErrNotExist
+}
+
+// encKeyRollover: one IdentityProvider value for the life of a deployment; the registered SP replaces its encryption
+// certificate (same entity ID) between responses. Every response must open with the key of the certificate registered
+// *at that moment* and with no other — in particular not with the key the SP has just withdrawn.
+func (c *Ctx) encKeyRollover() {
+	now := baseTime
+	saml.TimeNow = func() time.Time { return now }
+	saml.Clock = dsig.NewFakeClockAt(now)
+	saml.RandReader = &detReader{c: c}
+	xmlenc.RandReader = &detReader{c: c}
+	entity := "https://sp.example.com/rollover"
+	reg := &rollingRegistry{}
+	k := c.key("idp")
+	idp := &saml.IdentityProvider{Key: k.Key, Certificate: k.Cert, Logger: logger.DefaultLogger, MetadataURL: mustURL(idpMetadataURL), SSOURL: mustURL(idpSSOURL),
+		ServiceProviderProvider: reg, SessionProvider: fixedSession{&saml.Session{ID: "sess-r", NameID: "SECRET-nameid", UserName: "alice", CreateTime: now, ExpireTime: now.Add(time.Hour), Index: "idx-r"}}}
+	mdFor := func(keyName string) *saml.EntityDescriptor {
+		kd := saml.KeyDescriptor{Use: "encryption"}
+		kd.KeyInfo.X509Data.X509Certificates = []saml.X509Certificate{{Data: base64.StdEncoding.EncodeToString(c.key(keyName).Cert.Raw)}}
+		return &saml.EntityDescriptor{EntityID: entity, SPSSODescriptors: []saml.SPSSODescriptor{{
+			SSODescriptor:             saml.SSODescriptor{RoleDescriptor: saml.RoleDescriptor{KeyDescriptors: []saml.KeyDescriptor{kd}}},
+			AssertionConsumerServices: []saml.IndexedEndpoint{{Binding: saml.HTTPPostBinding, Location: "https://sp.example.com/rollover/acs", Index: 1}}}}}
+	}
+	for _, plan := range [][]string{{"sp", "sp2", "sp", "sp2"}, {"sp2", "sp2", "sp"}} {
+		reg.md = nil
+		idp2 := *idp // a fresh deployment per plan, kept across the rounds of the plan
+		why := ""
+		var seq []string
+		for round, keyName := range plan {
+			reg.md = mdFor(keyName)
+			seq = append(seq, keyName)
+			res := safely(func() string {
+				w := httptest.NewRecorder()
+				r, _ := http.NewRequest("GET", "https://idp.example.com/login/rollover", nil)
+				idp2.ServeIDPInitiated(w, r, entity, "rs")
+				if w.Code != 200 {
+					return fmt.Sprintf("status-%d", w.Code)
+				}
+				v, _ := inputValOf(w.Body.Bytes(), "SAMLResponse")
+				raw, _ := base64.StdEncoding.DecodeString(v)
+				if bytes.Contains(raw, []byte("SECRET-nameid")) {
+					return "clear"
+				}
+				doc := etree.NewDocument()
+				if doc.ReadFromBytes(raw) != nil {
+					return "unreadable"
+				}
+				ed := doc.FindElement("//EncryptedData")
+				if ed == nil {
+					return "no-encrypted-data"
+				}
+				var opens []string
+				for _, kn := range []string{"sp", "sp2", "attacker"} {
+					func() {
+						defer func() { recover() }()
+						if p, err := xmlenc.Decrypt(c.key(kn).Key, ed); err == nil && bytes.Contains(p, []byte("SECRET-nameid")) {
+							opens = append(opens, kn)
+						}
+					}()
+				}
+				return "opens:" + strings.Join(opens, "+")
+			})
+			if res != "opens:"+keyName && why == "" {
+				why = fmt.Sprintf("key=c08-wrong-recipient:rollover round %d: the SP's registered encryption certificate is %s (after %v), but the emitted response %s", round+1, keyName, seq, res)
+			}
+			c.count("c08-key-rollover", res)
+		}
+		c.emitOneWay("keyrollover", encStrListRaw(plan), "done", why)
+	}
 }
 
 // plainWithOther reports whether the EncryptedData of an emitted response opens with a key other than the recipient's.
